@@ -1738,6 +1738,13 @@ fn run_ops<K: KeyT>(
         route: header.route,
         keycap,
     };
+    if world.id.starts_with("MO-") {
+        // monitor-only cases are too long for per-op snapshots (quadratic): a linear shadow of the I ops
+        run_ops_light(&mut world, ops, out, sink);
+        let _ = writeln!(out, "END {}", world.id);
+        let _ = guard(move || drop(world));
+        return;
+    }
     for (opno, toks) in ops.iter().enumerate() {
         let label = opno.to_string();
         let (result, ev) = world.exec(toks);
@@ -1763,6 +1770,74 @@ fn run_ops<K: KeyT>(
     let _ = writeln!(out, "END {}", world.id);
     // the objects of the case are dropped here, under catch_unwind like everything else
     let _ = guard(move || drop(world));
+}
+
+/// Monitor-only cases (`MO-...`): only `I <slot> <hex>` ops are shadowed; checks C07 / C10 / C01 / C02 in linear time
+fn run_ops_light<K: KeyT>(world: &mut World<K>, ops: &[Vec<&str>], out: &mut String, sink: &mut MonSink) {
+    use std::collections::HashMap;
+    let id = world.id.clone();
+    let keycap = world.keycap;
+    let mut by_str: HashMap<String, usize> = HashMap::new();
+    let mut by_key: Vec<String> = Vec::new();
+    let mut reported = 0usize;
+    let mut rep = |sink: &mut MonSink, opno: usize, prop: &str, msg: String| {
+        if reported < 20 {
+            sink.report(&id, &opno.to_string(), prop, &msg);
+        }
+        reported += 1;
+    };
+    for (opno, toks) in ops.iter().enumerate() {
+        let (result, _ev) = world.exec(toks);
+        if opno < 4 || opno + 12 >= ops.len() {
+            let _ = writeln!(out, "{} {} {}", world.id, opno, result);
+        }
+        if toks.first() == Some(&"I") && toks.get(1) == Some(&"0") {
+            let s = toks.get(2).copied().unwrap_or("-").to_string();
+            if let Some(k) = result.strip_prefix('K').and_then(|t| t.parse::<usize>().ok()) {
+                match by_str.get(&s) {
+                    Some(prev) => {
+                        if *prev != k {
+                            rep(sink, opno, "C02", format!("slot 0: interning {s} again returned key {k}, before it was {prev}"));
+                        }
+                    }
+                    None => {
+                        if k != by_key.len() {
+                            rep(sink, opno, "C10", format!("slot 0: new string {s} got key {k}, {} strings were interned before", by_key.len()));
+                        }
+                        if k < by_key.len() {
+                            rep(sink, opno, "C07", format!("slot 0: success returned key {k} which already stands for {}", by_key[k]));
+                        } else {
+                            if (by_key.len() as u64) >= keycap {
+                                rep(sink, opno, "C07", format!("slot 0: a {}th distinct string was accepted by a key type that admits {keycap}", by_key.len() + 1));
+                            }
+                            by_str.insert(s.clone(), k);
+                            by_key.push(s);
+                        }
+                    }
+                }
+            } else if result == "E:key" {
+                if (by_key.len() as u64) < keycap && !by_str.contains_key(&s) {
+                    rep(sink, opno, "C07", format!("slot 0: E:key although only {} of {keycap} keys are in use", by_key.len()));
+                }
+            }
+        }
+    }
+    // the end: every shadowed pair still resolves, get agrees, len agrees
+    let n = by_key.len();
+    let mut check = |world: &mut World<K>, toks: Vec<String>, want: String, prop: &str, what: String, sink: &mut MonSink| {
+        let t: Vec<&str> = toks.iter().map(|x| x.as_str()).collect();
+        let (result, _) = world.exec(&t);
+        if result != want {
+            rep(sink, ops.len(), prop, format!("slot 0: {what}: got {result}, expected {want}"));
+        }
+    };
+    check(world, vec!["LEN".into(), "0".into()], format!("#{n}"), "C10", "len() after the history".into(), sink);
+    let step = (n / 4096).max(1);
+    for k in (0..n).step_by(step).chain(n.saturating_sub(3)..n) {
+        let s = by_key[k].clone();
+        check(world, vec!["TR".into(), "0".into(), k.to_string()], format!("S:{s}"), "C01", format!("try_resolve({k})"), sink);
+        check(world, vec!["G".into(), "0".into(), s.clone()], format!("K{k}"), "C02", format!("get({s})"), sink);
+    }
 }
 
 /// Runs one `CASE` line; appends its result lines to `out`
